@@ -112,4 +112,50 @@ theorem mergeSort_perm_eq {α : Type} (le : α → α → Bool)
   have hb' : b ∈ l := h.mem_iff.mpr ((List.mergeSort_perm l' le).mem_iff.mp hb)
   exact hanti a b ha' hb' hab hba
 
+/-- A total order given as a Boolean `≤` (`bytes.Compare(a, b) <= 0`, `a <= b` on strings). -/
+structure TotalOrder {α : Type} (le : α → α → Bool) : Prop where
+  trans : ∀ a b c, le a b = true → le b c = true → le a c = true
+  total : ∀ a b, (le a b || le b a) = true
+  antisymm : ∀ a b, le a b = true → le b a = true → a = b
+
+theorem eq_of_nodup_map {α β : Type} (f : α → β) {l : List α} (h : (l.map f).Nodup) {a b : α}
+    (ha : a ∈ l) (hb : b ∈ l) (hf : f a = f b) : a = b := by
+  induction l with
+  | nil => cases ha
+  | cons x xs ih =>
+    simp only [List.map_cons, List.nodup_cons, List.mem_map, not_exists, not_and] at h
+    rcases List.mem_cons.mp ha with rfl | ha' <;> rcases List.mem_cons.mp hb with rfl | hb'
+    · rfl
+    · exact absurd hf.symm (h.1 b hb')
+    · exact absurd hf (h.1 a ha')
+    · exact ih h.2 ha' hb'
+
+/-- Sorting by a key that is distinct on the entries makes the result independent of the order the
+entries came in. -/
+theorem sortByKey_perm_eq {κ β : Type} (le : κ → κ → Bool) (ho : TotalOrder le) {l l' : List (κ × β)}
+    (hnd : (l.map (·.1)).Nodup) (h : l.Perm l') :
+    l.mergeSort (fun a b => le a.1 b.1) = l'.mergeSort (fun a b => le a.1 b.1) := by
+  apply mergeSort_perm_eq _ (fun a b c => ho.trans a.1 b.1 c.1) (fun a b => ho.total a.1 b.1) _ h
+  intro a b ha hb hab hba
+  exact eq_of_nodup_map (·.1) hnd ha hb (ho.antisymm _ _ hab hba)
+
+/-- `NormalizeRewardDelegators` as it is now returns the same slice whatever order the map range
+yields the entries in (for delegator keys that decode to distinct addresses). -/
+theorem normalizeSorted_perm_eq (le : A → A → Bool) (ho : TotalOrder le) {es es' : List (Option A × Nat)}
+    (hnd : ((es.filterMap strip).map (·.1)).Nodup) (h : es.Perm es') :
+    normalizeSorted le es = normalizeSorted le es' := by
+  unfold normalizeSorted
+  rw [normalize_spec, normalize_spec, validDelegators_perm h]
+  cases validDelegators es' with
+  | false => rfl
+  | true =>
+    simp only [if_true, Option.map_some, Option.some.injEq]
+    exact sortByKey_perm_eq le ho hnd (h.filterMap strip)
+
+theorem splitNodeRewardsSorted_perm_eq (le : A → A → Bool) (ho : TotalOrder le) (rewards : Int) (primary : A)
+    {es es' : List (Option A × Nat)} (hnd : ((es.filterMap strip).map (·.1)).Nodup) (h : es.Perm es') :
+    splitNodeRewardsSorted le rewards primary es = splitNodeRewardsSorted le rewards primary es' := by
+  unfold splitNodeRewardsSorted
+  rw [normalizeSorted_perm_eq le ho hnd h]
+
 end Determinism
